@@ -64,6 +64,15 @@ int KSI_SignatureBuilder_openFromAggregationResp(const KSI_AggregationResp *resp
 	*builder = c07_open_builder(VERIF_ctx); return KSI_OK;
 }
 
+/* policy.c is not linked; the context initialiser is modelled field by field after policy.c:936 so that a code path
+ * that builds a verification context of its own stays inside the model (and is then judged by the checks below) */
+int KSI_VerificationContext_init(KSI_VerificationContext *context, KSI_CTX *ctx) {
+	if (context == NULL || ctx == NULL) return KSI_INVALID_ARGUMENT;
+	context->ctx = ctx; context->signature = NULL; context->extendingAllowed = 0; context->docAggrLevel = 0;
+	context->documentHash = NULL; context->userPublication = NULL; context->userPublicationsFile = NULL; context->tempData = NULL;
+	return KSI_OK;
+}
+
 #include "signature.c"
 
 static const int GATES[] = {G_SEND, G_PERFORM, G_GETRESP, G_VWR, G_OPEN, G_CLOSE, G_VERIFY};
